@@ -312,7 +312,9 @@ def run_case(ctx, case):
                       f"device has {a_reads[3:5]}", case)
     if toggled is not None and toggled[0] == toggled[1]:
         bad = True
-        ctx.violation("toggle-not-received", "toggle_display() did not reach the device", case)
+        # (on V2 with a reply cut inside a packet the left-over pieces of the previous reply are what the next exchange reads first -
+        # the recorded finding: V2 has no stream reassembly - so whether the toggle gets out depends on when they arrive)
+        ctx.violation(segclass or "toggle-not-received", "toggle_display() did not reach the device", case)
     def differences(d, got):
         want = {"power": d["power"], "mode": d["mode"], "target_temperature": d["target_temperature"], "fan": d["fan"], "swing": d["swing"],
                 "eco": d["eco"], "turbo": d["turbo"], "sleep": d["sleep"], "fahrenheit": d["fahrenheit"], "freeze_protection": d["freeze_protection"],
